@@ -151,7 +151,10 @@ MRegister(R, t, kw, exact, mk) ==
                                           ELSE R.map[op]],
         !.tree  = [op \in DOMAIN R.tree |-> IF op \in ops /\ fuzzy THEN MRegFuzzy(R.tree[op], t)
                                            ELSE R.tree[op]],
-        !.cache = IF Mutant = "no_reset" THEN R.cache ELSE <<>>,
+        !.cache = IF Mutant = "no_reset" THEN R.cache
+                  ELSE IF Mutant = "partial_reset" /\ exact      \* drops only the entries named in kw
+                  THEN SelectSeq(R.cache, LAMBDA e : ~(e.t = t /\ e.op \in KwOps(kw)))
+                  ELSE <<>>,
         !.made  = IF mk.n = 0 THEN R.made ELSE Append(R.made, mk)]
 
 \* register_op(op, auto_func): autodiscover the op for every known type (in order of type name),
@@ -176,9 +179,13 @@ MRegisterOp(R, op, byname, setorder) ==
 \* get_handler(op, obj) with raise_exc=True: memo hit, else exact entry of type(obj), else the
 \* entry of the closest type in the tree; False / nothing found raises UnregisteredTarget and
 \* memoises nothing
+\* (an exact entry is final even when its handler is False; mutant "false_falls_through" lets a
+\* False entry of the type itself fall through to the ancestor search)
 MChosen(R, T, op) ==               \* the registered type whose entry is used, or "NONE"
   LET m == R.map[op] IN
-  IF Len(m) = 0 THEN "NONE" ELSE IF Has(m, T) THEN T ELSE MClosest(R.tree[op], T)
+  IF Len(m) = 0 THEN "NONE"
+  ELSE IF Has(m, T) /\ ~(Mutant = "false_falls_through" /\ m[Idx(m, T)].h = FalseH) THEN T
+  ELSE MClosest(R.tree[op], T)
 MResolve(R, T, op) ==
   LET c == MChosen(R, T, op) IN IF c = "NONE" THEN FalseH ELSE R.map[op][Idx(R.map[op], c)].h
 CacheHit(e, T, op) == e.t = T /\ (Mutant = "cache_by_type" \/ e.op = op)
@@ -292,16 +299,18 @@ VARIABLES regs,    \* [registry id -> registry]
 RegKind == [default |-> "default", g1 |-> "glommer", g2 |-> "bare"]
 
 \* user registration: handlers tagged <<t, n>> with n the position of the action in hist
-UserKw(t, ops, n) == [i \in 1..Len(ops) |-> [op |-> ops[i], h |-> H(t, n)]]
-Register(r, t, ops, exact) ==
+\* (off: the ops among ops for which the call passes False instead of a handler, e.g. iterate=False)
+UserKw(t, ops, n, off) ==
+  [i \in 1..Len(ops) |-> [op |-> ops[i], h |-> IF ops[i] \in Range(off) THEN FalseH ELSE H(t, n)]]
+Register(r, t, ops, exact, off) ==
   LET n == Len(hist) + 1
-      mk == [t |-> t, exact |-> exact, kw |-> UserKw(t, ops, n), n |-> n]
+      mk == [t |-> t, exact |-> exact, kw |-> UserKw(t, ops, n, off), n |-> n]
       R1 == MRegister(regs[r], t, mk.kw, exact, mk)
   IN /\ regs[r].live
      /\ regs' = IF Mutant = "shared_glommer" /\ r = "g1" /\ "default" \in DOMAIN regs
                 THEN [regs EXCEPT ![r] = R1, !["default"] = MRegister(@, t, mk.kw, exact, mk)]
                 ELSE [regs EXCEPT ![r] = R1]
-     /\ hist' = Append(hist, [a |-> "reg", r |-> r, t |-> t, ops |-> ops, exact |-> exact])
+     /\ hist' = Append(hist, [a |-> "reg", r |-> r, t |-> t, ops |-> ops, exact |-> exact, off |-> off])
 Lookup(r, T, op) ==
   LET res == MLookup(regs[r], T, op) IN
   /\ regs[r].live
